@@ -73,6 +73,16 @@ theorem sumBy_filter_split {α : Type} (f : α → Int) (p : α → Bool) (l : L
   | cons x t ih =>
     by_cases h : p x <;> simp [List.filter, h, sumBy, ih] <;> omega
 
+theorem sumBy_updFirst_inv {α : Type} (f : α → Int) (p : α → Bool) (g : α → α) (l : List α) (h : ∀ x, f (g x) = f x) :
+    sumBy f (updFirst p g l) = sumBy f l := by
+  induction l with
+  | nil => rfl
+  | cons x t ih =>
+    simp only [updFirst]
+    split
+    · simp only [sumBy, h]
+    · simp only [sumBy, ih]
+
 theorem sumBy_map_eq {α : Type} (f : α → Int) (g : α → α) (l : List α) (h : ∀ x, f (g x) = f x) :
     sumBy f (l.map g) = sumBy f l := by
   induction l with
@@ -212,6 +222,27 @@ theorem apply_holdings (s : State) (p : Prim) (c : Coin) (hok : p.ok s = true) :
   | setCoinOwner sym a => simp [Prim.apply, holdings_def, Prim.dHold]
   | bumpVersion c' v => simp [Prim.apply, holdings_def, Prim.dHold]
   | note t => simp [Prim.apply, holdings_def, Prim.dHold]
+  | setLockStake a h => simp [Prim.apply, holdings_def, Prim.dHold]
+  | setMultisig a ms => simp [Prim.apply, holdings_def, Prim.dHold]
+  | addCandidate cd =>
+    simp only [Prim.apply, holdings_def, Prim.dHold, sumBy_append, sumBy_single, candHoldings, sumBy]; omega
+  | setCandStatus id st =>
+    simp only [Prim.apply, holdings_def, Prim.dHold]
+    rw [sumBy_updFirst_inv (candHoldings c) _ _ _ (by intro x; rfl)]; omega
+  | setToDrop pk => simp [Prim.apply, holdings_def, Prim.dHold]
+  | editCandidate id ow rw ct =>
+    simp only [Prim.apply, holdings_def, Prim.dHold]
+    rw [sumBy_updFirst_inv (candHoldings c) _ _ _ (by intro x; rfl)]; omega
+  | setCandPubKey id old new =>
+    simp only [Prim.apply, holdings_def, Prim.dHold]
+    rw [sumBy_updFirst_inv (candHoldings c) _ _ _ (by intro x; rfl)]; omega
+  | setCandCommission id cm h =>
+    simp only [Prim.apply, holdings_def, Prim.dHold]
+    rw [sumBy_updFirst_inv (candHoldings c) _ _ _ (by intro x; rfl)]; omega
+  | addHalt h pk => simp [Prim.apply, holdings_def, Prim.dHold]
+  | addCVote h pk dg => simp [Prim.apply, holdings_def, Prim.dHold]
+  | addUVote h pk v => simp [Prim.apply, holdings_def, Prim.dHold]
+  | setNextOrder n => simp [Prim.apply, holdings_def, Prim.dHold]
 
 def sideTotal (s : State) : Int := totalReserve s + totalAccum s + s.slashed + s.rewardsPool
 
@@ -262,6 +293,18 @@ theorem apply_volume (s : State) (p : Prim) (c : Coin) (hok : p.ok s = true) :
     | none => simp
     | some ci => simp
   | note t => simp [Prim.apply, volumeOf, Prim.dVol]
+  | setLockStake a h => simp [Prim.apply, volumeOf, Prim.dVol]
+  | setMultisig a ms => simp [Prim.apply, volumeOf, Prim.dVol]
+  | addCandidate cd => simp [Prim.apply, volumeOf, Prim.dVol]
+  | setCandStatus id st => simp [Prim.apply, volumeOf, Prim.dVol]
+  | setToDrop pk => simp [Prim.apply, volumeOf, Prim.dVol]
+  | editCandidate id ow rw ct => simp [Prim.apply, volumeOf, Prim.dVol]
+  | setCandPubKey id old new => simp [Prim.apply, volumeOf, Prim.dVol]
+  | setCandCommission id cm h => simp [Prim.apply, volumeOf, Prim.dVol]
+  | addHalt h pk => simp [Prim.apply, volumeOf, Prim.dVol]
+  | addCVote h pk dg => simp [Prim.apply, volumeOf, Prim.dVol]
+  | addUVote h pk v => simp [Prim.apply, volumeOf, Prim.dVol]
+  | setNextOrder n => simp [Prim.apply, volumeOf, Prim.dVol]
 
 theorem apply_side (s : State) (p : Prim) (hok : p.ok s = true) :
     sideTotal (p.apply s) = sideTotal s + p.dSide := by
@@ -310,6 +353,21 @@ theorem apply_side (s : State) (p : Prim) (hok : p.ok s = true) :
     | none => simp
     | some ci => simp
   | note t => simp [Prim.apply, sideTotal, totalReserve, totalAccum, Prim.dSide]
+  | setLockStake a h => simp [Prim.apply, sideTotal, totalReserve, totalAccum, Prim.dSide]
+  | setMultisig a ms => simp [Prim.apply, sideTotal, totalReserve, totalAccum, Prim.dSide]
+  | addCandidate cd => simp [Prim.apply, sideTotal, totalReserve, totalAccum, Prim.dSide]
+  | setCandStatus id st => simp [Prim.apply, sideTotal, totalReserve, totalAccum, Prim.dSide]
+  | setToDrop pk =>
+    simp only [Prim.apply, sideTotal, totalReserve, totalAccum, Prim.dSide]
+    have := sumBy_updFirst_inv (fun v : Validator => v.accum) (fun x => x.pubkey == pk) (fun v => { v with toDrop := true }) s.validators (fun _ => rfl)
+    rw [this]; omega
+  | editCandidate id ow rw ct => simp [Prim.apply, sideTotal, totalReserve, totalAccum, Prim.dSide]
+  | setCandPubKey id old new => simp [Prim.apply, sideTotal, totalReserve, totalAccum, Prim.dSide]
+  | setCandCommission id cm h => simp [Prim.apply, sideTotal, totalReserve, totalAccum, Prim.dSide]
+  | addHalt h pk => simp [Prim.apply, sideTotal, totalReserve, totalAccum, Prim.dSide]
+  | addCVote h pk dg => simp [Prim.apply, sideTotal, totalReserve, totalAccum, Prim.dSide]
+  | addUVote h pk v => simp [Prim.apply, sideTotal, totalReserve, totalAccum, Prim.dSide]
+  | setNextOrder n => simp [Prim.apply, sideTotal, totalReserve, totalAccum, Prim.dSide]
 
 theorem apply_emission (s : State) (p : Prim) : (p.apply s).emission = s.emission + p.dEmission := by
   cases p <;> simp [Prim.apply, Prim.dEmission]
